@@ -1034,6 +1034,7 @@ def run_c09(ctx):
     long_array_stream(ctx, "c09", ["int64", "int32", "uint8", "str"], 40 if q else 1500)
     mesh_integer_stream(ctx, 150 if q else 4000)
     object_array_stream(ctx, 200 if q else 5000)
+    ragged_rows_stream(ctx, 120 if q else 3000)
     ctx.rule = ("integer (8 dtypes, extremes), string and int/float-mixed arrays (also object arrays holding both), shapes as C01, a differing entry at "
                 "first/last/random position, tolerances in {default, 0, 2^-10, 1, 1000, 2^900, 1024*max}; "
                 "non-trivial = arrays differ in a value, a dtype or shape")
@@ -1085,6 +1086,49 @@ def object_array_stream(ctx, n):
                 ctx.violation("E4", f"c09: object arrays ({'with' if any_float else 'without'} float entries), deviation {dev}, abs_tol {tol}: "
                                     f"verdict {res[nm]}, the statement requires {want}", canon, impl=res)
                 break
+        ctx.traces_validated += 1
+
+
+def ragged_rows_stream(ctx, n):
+    """integer / string data held as one array per row with rows of different lengths (the layout of polygon connectivity): equal
+    iff every row has the same length and the same entries — a row [7] is not the row [7, 7]"""
+    from fieldcompare import predicates as P
+    rng = ctx.rng
+    for it in range(n):
+        L = rng.randint(2, 4)
+        rows = [[rng.randint(0, 9) for _ in range(rng.randint(1, 4))] for _ in range(L)]
+        if len({len(r) for r in rows}) == 1:
+            rows[0] = rows[0] + [rows[0][0]]
+        other = [list(r) for r in rows]
+        j = rng.randrange(L)
+        how = rng.choice(["same", "repeat_single_value", "append", "change"])
+        if how == "repeat_single_value":
+            rows[j] = [rows[j][0]]
+            other[j] = [rows[j][0]] * rng.randint(2, 3)
+        elif how == "append":
+            other[j] = other[j] + [rng.randint(0, 9)]
+        elif how == "change":
+            other[j][rng.randrange(len(other[j]))] += 1
+
+        def arr(rs):
+            out = np.empty(len(rs), dtype=object)
+            for i_, r_ in enumerate(rs):
+                out[i_] = np.array(r_, dtype=np.int64)
+            return out
+        pred = rng.choice([P.ExactEquality(), P.DefaultEquality(rel_tol=0.5, abs_tol=10.0)])
+        canon = {"ragged_rows": {"a": rows, "b": other, "how": how, "predicate": type(pred).__name__}}
+        res = {}
+        for nm, x, y in (("ab", arr(rows), arr(other)), ("ba", arr(other), arr(rows))):
+            try:
+                res[nm] = bool(pred(x, y))
+            except Exception as e:  # noqa: BLE001
+                res[nm] = f"raised {type(e).__name__}: {e}"
+        want = rows == other
+        ctx.case(canon, how != "same", sample={"case": canon, "impl": res})
+        ctx.count(f"c09:rows of different lengths:{how}")
+        ctx.tie("T2 integer rows of different lengths: implementation = statement")
+        if res["ab"] is not want or res["ba"] is not want:
+            ctx.violation("E4", f"c09: integer data in rows of different lengths ({how}): verdicts {res}, identical rows: {want}", canon, impl=res)
         ctx.traces_validated += 1
 
 
